@@ -521,6 +521,7 @@ class DeployEngine(object):
             st, val = rigcall(w, allowed, mc.load_routing_tables, tables, 77)
             loaded = st == "ok"
             if st == "exc":
+                c.settle()
                 if isinstance(val, c.mcmod.SpiNNakerRouterError):
                     w.probe("router_error")
                     ch = m.chips[val.chip]
